@@ -10,7 +10,11 @@ import sys
 import time
 
 VERIF = os.path.dirname(os.path.dirname(os.path.abspath(__file__)))
-REPO = "/repo"
+# The checks verify /repo.  For the development of the checks only (running them against a seeded change in a
+# scratch worktree without touching /repo), VERIF_REPO names another checkout and VERIF_SCRATCH a directory
+# that receives the work files, evidence and replays of that run.
+REPO = os.environ.get("VERIF_REPO", "/repo")
+OUT_BASE = os.environ.get("VERIF_SCRATCH", VERIF)
 TLA_DIR = os.path.join(VERIF, "tla")
 HARNESS = os.path.join(VERIF, "harness")
 JAR = "/opt/veriftools/tla/tla2tools.jar:/opt/veriftools/tla/CommunityModules-deps.jar"
@@ -53,7 +57,10 @@ def build_harness(variants):
         env = dict(os.environ)
         env["RUSTFLAGS"] = flags
         env["CARGO_NET_OFFLINE"] = "true"
-        cmd = ["cargo", "build", "--offline", "--quiet", "--target-dir", os.path.join(HARNESS, "target", v)]
+        tdir = os.path.join(HARNESS, "target", v) if REPO == "/repo" else os.path.join(OUT_BASE, "target", v)
+        cmd = ["cargo", "build", "--offline", "--quiet", "--target-dir", tdir]
+        if REPO != "/repo":
+            cmd += ["--config", 'paths=["%s"]' % REPO]
         if release:
             cmd.append("--release")
         procs[v] = subprocess.Popen(cmd, cwd=HARNESS, env=env, stdout=subprocess.PIPE, stderr=subprocess.STDOUT, text=True)
@@ -63,7 +70,8 @@ def build_harness(variants):
         if p.returncode != 0:
             raise ToolError("harness build failed for %s:\n%s" % (v, text[-4000:]))
         release, _ = VARIANTS[v]
-        out[v] = os.path.join(HARNESS, "target", v, "release" if release else "debug", "sds-verif-harness")
+        tdir = os.path.join(HARNESS, "target", v) if REPO == "/repo" else os.path.join(OUT_BASE, "target", v)
+        out[v] = os.path.join(tdir, "release" if release else "debug", "sds-verif-harness")
     return out
 
 
@@ -244,7 +252,7 @@ class Check:
         self.tier = tier
         self.seed = seed
         self.t0 = time.time()
-        self.work = os.path.join(VERIF, ".work", pid)
+        self.work = os.path.join(OUT_BASE, ".work", pid)
         shutil.rmtree(self.work, ignore_errors=True)
         os.makedirs(self.work, exist_ok=True)
         self.cov = {"states": 0, "transitions": 0, "traces_validated_against_impl": 0, "evaluations": 0,
@@ -331,12 +339,12 @@ class Check:
         ev = {"property_id": self.pid, "tier": self.tier, "seed": self.seed, "level": level,
               "coverage": self.cov, "assumptions": self.assumptions, "wall_s": round(wall, 2),
               "violations": len(self.violations)}
-        os.makedirs(os.path.join(VERIF, "evidence"), exist_ok=True)
-        with open(os.path.join(VERIF, "evidence", self.pid + ".json"), "w") as f:
+        os.makedirs(os.path.join(OUT_BASE, "evidence"), exist_ok=True)
+        with open(os.path.join(OUT_BASE, "evidence", self.pid + ".json"), "w") as f:
             json.dump(ev, f, indent=1, sort_keys=True)
             f.write("\n")
         if self.violations:
-            rdir = os.path.join(VERIF, "replays", self.pid)
+            rdir = os.path.join(OUT_BASE, "replays", self.pid)
             os.makedirs(rdir, exist_ok=True)
             for i, v in enumerate(self.violations[:5]):
                 path = os.path.join(rdir, "violation_%s_%d.json" % (self.tier, i))
